@@ -47,3 +47,29 @@ Theorem tie_transport_third_party_junos_parser_SAXParser_write :
   L_transport_third_party_junos_parser_SAXParser___init__ = [].
 Proof. tie. Qed.
 Print Assumptions tie_transport_third_party_junos_parser_SAXParser_write.
+
+(* SaxFilter.v writes the character codes of these literals in line (esc1, qesc1, render1, render_attrs).  The model
+   FUNCTIONS are evaluated here on the source literals themselves: escaping each key of the replacement tables gives the
+   entity next to it, and rendering a sample name / text / attribute gives the source's format string with "{}" filled in. *)
+Definition fill (fmt arg : bytes) : bytes :=
+  match find_sub (lit "{}"%string) fmt with Some (a, b) => a ++ arg ++ b | None => fmt end.
+Definition fill_pct (fmt arg : bytes) : bytes :=
+  match find_sub (lit "%s"%string) fmt with Some (a, b) => a ++ arg ++ b | None => fmt end.
+Definition smp : bytes := lit "ab"%string.
+Theorem tie_sax_functions_on_samples :
+  let e := L_transport_third_party_junos_parser_escape in
+  let q := L_transport_third_party_junos_parser_quoteattr in
+  let st := L_transport_third_party_junos_parser_SAXParser_startElement in
+  let en := L_transport_third_party_junos_parser_SAXParser_endElement in
+  let ch := L_transport_third_party_junos_parser_SAXParser_characters in
+  let wb := L_transport_third_party_junos_parser_SAXParser__write_buffer in
+  map (fun i => escape (nth (2 * i) e [])) [0; 1; 2; 3]%nat = map (fun i => nth (2 * i + 1) e []) [0; 1; 2; 3]%nat /\
+  map (fun i => flat_map qesc1 (nth (2 * i) q [])) [0; 1; 2]%nat = map (fun i => nth (2 * i + 1) q []) [0; 1; 2]%nat /\
+  quoteattr smp = fill_pct (nth 12 q []) smp /\                                       (* '"%s"' *)
+  render1 (OBare smp) = fill (nth 7 st []) smp /\                                      (* '<{}>\n' *)
+  render1 (OStart smp []) = fill (fill (nth 8 st []) smp) [] /\                        (* '<{}{}>' *)
+  render1 (OEnd smp) = fill (nth 0 en []) smp /\                                       (* '</{}>\n' *)
+  render1 (OText smp) = fill (nth 0 ch []) smp /\                                      (* '{}' *)
+  render_attrs [(smp, smp)] = fill (fill (nth 1 wb []) smp) (quoteattr smp).           (* ' {}={}' *)
+Proof. cbv zeta. tie. Qed.
+Print Assumptions tie_sax_functions_on_samples.
